@@ -1,29 +1,37 @@
 #!/usr/bin/env python3
-"""Store the two confirmed fourth-round ("realistic maintenance defect") changes of one property from
-/tmp/w4-<Cxx>:  tools/store_round4.py <Cxx> "<needs m1>" "<needs m2>" [caught-by-m1] [caught-by-m2]"""
+"""Store the two confirmed changes of one property of a two-changes-per-agent round (4: realistic maintenance
+defects; 6: one maintenance defect + one usage-pattern defect; env ROUND, default 4) from /tmp/w<ROUND>-<Cxx>:
+  tools/store_round4.py <Cxx> "<needs m1>" "<needs m2>" [caught-by-m1] [caught-by-m2] [status-m1] [status-m2]"""
 import sys, os, json, shutil
 prop, n1, n2 = sys.argv[1:4]
-c1 = sys.argv[4] if len(sys.argv) > 4 else prop
-c2 = sys.argv[5] if len(sys.argv) > 5 else prop
-wt = f"/tmp/w4-{prop}"
-for m, needs, caught in (("m1", n1, c1), ("m2", n2, c2)):
-    dst = f"/verif/seeded/{prop}-r4{m}"
+rnd = os.environ.get("ROUND", "4")
+c1 = sys.argv[4] if len(sys.argv) > 4 and sys.argv[4] else prop
+c2 = sys.argv[5] if len(sys.argv) > 5 and sys.argv[5] else prop
+st1 = sys.argv[6] if len(sys.argv) > 6 and sys.argv[6] else "caught at first attempt"
+st2 = sys.argv[7] if len(sys.argv) > 7 and sys.argv[7] else "caught at first attempt"
+wt = f"/tmp/w{rnd}-{prop}"
+ORIGIN = {
+    "4": "fourth round: written by an independent sub-agent that saw only the text of the property and a scratch worktree of /repo; the brief asked for two small, realistic maintenance defects (refactoring slip, off-by-one, wrong width or signedness, forgotten case, state not reset) and said nothing about the suite",
+    "6": "sixth round: written by an independent sub-agent that saw only the text of the property and a scratch worktree of /repo; the brief asked for m1 = an ordinary maintenance defect in a less obvious part of the property's scope and m2 = a defect that only shows under a particular usage pattern of the API (less common entry point or VM struct, second use, unusual order of calls, features combined, state after an Err), and said nothing about the suite",
+}[rnd]
+for m, needs, caught, status in (("m1", n1, c1, st1), ("m2", n2, c2, st2)):
+    dst = f"/verif/seeded/{prop}-r{rnd}{m}"
     os.makedirs(dst, exist_ok=True)
     shutil.copy(f"{wt}/{m}.diff", f"{dst}/patch.diff")
     shutil.copy(f"{wt}/tests/demo_{m}.rs", f"{dst}/demo_{m}.rs")
     open(f"{dst}/NOTES-from-author.md", "w").write(open(f"{wt}/NOTES.md").read())
-    log = [l.rstrip() for l in open(f"/tmp/confirm-{prop}-{m}-r4.log") if l.strip()]
+    log = [l.rstrip() for l in open(f"/tmp/confirm-{prop}-{m}-r{rnd}.log") if l.strip()]
     meta = {
-        "id": f"{prop}-r4{m}",
+        "id": f"{prop}-r{rnd}{m}",
         "breaks_property": prop,
-        "origin": "fourth round: written by an independent sub-agent that saw only the text of the property and a scratch worktree of /repo; the brief asked for two small, realistic maintenance defects (refactoring slip, off-by-one, wrong width or signedness, forgotten case, state not reset) and said nothing about the suite",
+        "origin": ORIGIN,
         "needs_to_manifest": needs,
         "confirmed_by_me": {
             "log": log,
-            "commands": [f"tools/confirm_seeded.sh /tmp/w4-{prop} {m} (both demo files in tests/: the other demo passes, the repository's 560 / 704 tests pass)", f"tools/try_patch.sh seeded/{prop}-r4{m}/patch.diff {caught.replace(',', ' ')}"],
+            "commands": [f"tools/confirm_seeded.sh /tmp/w{rnd}-{prop} {m} (both demo files in tests/: the other demo passes, the repository's 560 / 704 tests pass)", f"tools/try_patch.sh seeded/{prop}-r{rnd}{m}/patch.diff {caught.replace(',', ' ')}"],
         },
         "caught_by_quick_checks": [c for c in caught.split(",") if c],
-        "status": "caught at first attempt",
+        "status": status,
     }
     json.dump(meta, open(f"{dst}/meta.json", "w"), indent=1)
     print("stored", dst)
